@@ -14,7 +14,10 @@ PROP = {
             "snapshot (slice len/cap/elements up to cap, map entries, struct fields, pointer targets, identities) is "
             "taken before and compared after each render and at the end; each result must equal the result of the same "
             "(template, environment) rendered alone on a fresh engine with fresh bindings (a render whose result varies "
-            "by itself is C02's matter and is counted, not reported). Non-trivial = a sequence with a successful render. "
+            "by itself is C02's matter and is counted, not reported). Three fixed families first: every array filter (and three two-filter pipelines) "
+            "applied directly to 9 caller-owned arrays of each shape, rendered three times; 7 templates with per-render state (cycle, assign, capture, "
+            "forloop) rendered with good bindings, then with 3 bindings that make the render fail part-way, then again; a caller-bound `forloop` "
+            "record with cycle counters of the renderer's own Go type (3 records x 4 templates). Non-trivial = a sequence with a successful render. "
             "alias: pipelines of array filters on caller-owned []any values realised as sub-slices of larger backing arrays "
             "filled with a sentinel (generation rule under C15); the oracle reports C03 bindings-modified when any location of "
             "a caller's array, or the deep snapshot of the bindings map, differs after the evaluation (also when the evaluation "
